@@ -244,6 +244,7 @@ class World:
         self.id_reuse = 0
         self.dead_checks = 0
         self.shared = {}
+        self.origin = [None] * nslots  # how the object in each slot came to be ('new' / 'copy'): part of the state
 
 
 def make_build(kind, nslots, cls=None):
@@ -274,6 +275,7 @@ def make_build(kind, nslots, cls=None):
                 if id(obj) in w.dropped_ids:
                     w.id_reuse += 1
                 w.slots[s], w.variant[s] = obj, v
+                w.origin[s] = 'new'
             elif op == 'call':
                 _, s, ci = ev
                 name, args, kwargs = calls_of(kind, cls)[ci]
@@ -312,6 +314,7 @@ def make_build(kind, nslots, cls=None):
                 had_calls = sorted(c for (ss, c) in w.called if ss == s)
                 w.slots[s] = None
                 w.variant[s] = None
+                w.origin[s] = None
                 w.called = {(ss, c) for (ss, c) in w.called if ss != s}
                 del obj
                 gc.collect()
@@ -339,6 +342,8 @@ def make_build(kind, nslots, cls=None):
                     o2 = new_real('J', v_other, 1, w.shared)
                     obj.__dict__.update({k: v for k, v in o2.__dict__.items()})
                 w.slots[1], w.variant[1] = obj, v_other
+                w.origin[1] = 'copy'
+                src = obj = o2 = None  # the replay loop itself must not keep anything alive
                 w.called = {(ss, c) for (ss, c) in w.called if ss != 1}
             elif op == 'gc':
                 gc.collect()
@@ -358,7 +363,9 @@ def make_build(kind, nslots, cls=None):
         return w
 
     def canon(w):
-        return (tuple(w.variant), frozenset(w.called), tuple((n, tuple(l.cache_info())) for n, l in caches), tuple(e[0] for e in w.errors))
+        # objects made by copying are NOT merged with freshly constructed ones: a copy carries whatever per-instance
+        # state the memoisation layer may have attached to the original
+        return (tuple(w.variant), tuple(w.origin), frozenset(w.called), tuple((n, tuple(l.cache_info())) for n, l in caches), tuple(e[0] for e in w.errors))
 
     return build, canon
 
@@ -397,7 +404,8 @@ def shards(tier, seed):
     for cls in ('T', 'J', 'M'):
         for first in (('new', 0, 0), ('new', 0, 1)):
             for second in range(len(calls_of('real', cls)) + 1):
-                out.append({'kind': 'real', 'cls': cls, 'nslots': 2, 'depth': d['real'], 'root': list(first), 'second': second, 'tier': tier})
+                for third in range(3 if cls == 'J' else 1):
+                    out.append({'kind': 'real', 'cls': cls, 'nslots': 2, 'depth': d['real'], 'root': list(first), 'second': second, 'third': third, 'nthird': 3 if cls == 'J' else 1, 'tier': tier})
     return out
 
 
@@ -426,6 +434,16 @@ def run_shard(shard) -> Result:
                 if len(hist) == 1:
                     evs = [e for e in evs if not (e[0] == 'call' and e[1] == 0)]
                 return evs
+
+    if shard.get('nthird', 1) > 1:
+        # split the work below the second event three ways (event index modulo 3 at that level)
+        prev_enabled, lvl, k3, n3 = enabled, len(root), shard['third'], shard['nthird']
+
+        def enabled(w, hist, _b=prev_enabled):  # noqa: E731
+            evs = _b(w, hist)
+            if len(hist) == lvl:
+                evs = [e for i, e in enumerate(evs) if i % n3 == k3]
+            return evs
 
     reuse = [0]
     dead = [0]
